@@ -257,6 +257,7 @@ def run_workers(res, binpath, base_args, tier, seed, scratch, nshards=NCPU, case
     for sh in shards:
         launch(sh)
     t_start = time.time()
+    hang_confirmed = {}
 
     def tail(path, n=4000):
         try:
@@ -313,9 +314,16 @@ def run_workers(res, binpath, base_args, tier, seed, scratch, nshards=NCPU, case
             rp.update({"only": open_idx})
             if timed_out:
                 confirmed = False
-                if confirm_hang:
+                site0 = hang_site(stacks)
+                if confirm_hang and hang_confirmed.get(site0, 0) >= 2:
+                    # this very site was already confirmed twice in single-case re-runs with 4x the budget: count it
+                    confirmed = True
+                elif confirm_hang:
                     confirmed, stacks2 = confirm_single(binpath, base_args, tier, seed, open_idx, scratch, case_timeout * 4, env)
                     stacks = stacks2 or stacks
+                if confirmed:
+                    hang_confirmed[site0] = hang_confirmed.get(site0, 0) + 1
+                    hang_confirmed["*"] = hang_confirmed.get("*", 0) + 1
                 if confirmed:
                     res.cases += 1
                     res.verdicts["viol"] += 1
@@ -332,6 +340,12 @@ def run_workers(res, binpath, base_args, tier, seed, scratch, nshards=NCPU, case
                 else:
                     res.add_inconclusive(f"worker-crash:{kind}")
             sh.restarts += 1
+            if hang_confirmed.get("*", 0) >= 8:
+                # a storm of confirmed hangs: the verdict is established; do not spend the rest of the budget waiting on more
+                res.notes.append(f"shard {sh.n}: stopped after {hang_confirmed['*']} confirmed hangs in this run; remaining cases of the shard not run")
+                res.add_inconclusive("stopped-after-confirmed-hangs")
+                sh.finished = True
+                continue
             if sh.restarts > max_restarts:
                 res.notes.append(f"shard {sh.n}: too many restarts, remaining cases not run")
                 res.add_inconclusive("too-many-restarts")
